@@ -28,6 +28,10 @@ pub enum SOp {
     /// re-derive pool entry i from its truth table as a disjunction of cubes, variables conjoined in the
     /// order given by the keys (a different construction route for the same function)
     Rebuild(u16, Vec<u16>),
+    /// a function given by its whole truth table (restricted to the builder's variables), built by Shannon
+    /// expansion with and/or/negate: dense functions give decision nodes with many elements, which
+    /// operations over literals and a few dozen connectives never reach
+    Dense([u64; 4]),
 }
 
 impl SOp {
@@ -47,11 +51,16 @@ impl SOp {
             SOp::Rebuild(..) => "rebuild",
             SOp::AndDisjoint(..) => "and",
             SOp::OrDisjoint(..) => "or",
+            SOp::Dense(..) => "dense",
         }
     }
 }
 
 pub fn sop_strategy(with_ite_family: bool, with_rebuild: bool) -> BoxedStrategy<SOp> {
+    sop_strategy_ext(with_ite_family, with_rebuild, false)
+}
+
+pub fn sop_strategy_ext(with_ite_family: bool, with_rebuild: bool, with_dense: bool) -> BoxedStrategy<SOp> {
     let mut v: Vec<(u32, BoxedStrategy<SOp>)> = vec![
         (4, (any::<u8>(), any::<bool>()).prop_map(|(v, p)| SOp::Lit(v, p)).boxed()),
         (1, any::<bool>().prop_map(SOp::Const).boxed()),
@@ -71,6 +80,9 @@ pub fn sop_strategy(with_ite_family: bool, with_rebuild: bool) -> BoxedStrategy<
     }
     if with_rebuild {
         v.push((2, (idx_strategy(), proptest::collection::vec(any::<u16>(), 8)).prop_map(|(a, k)| SOp::Rebuild(a, k)).boxed()));
+    }
+    if with_dense {
+        v.push((2, any::<[u64; 4]>().prop_map(SOp::Dense).boxed()));
     }
     proptest::strategy::Union::new_weighted(v).boxed()
 }
@@ -184,6 +196,15 @@ impl<'a, B: SddBuilder<'a>> SddRun<'a, B> {
                 } else {
                     (b.or(self.pool[x].0, self.pool[y].0), self.pool[x].1.or(self.pool[y].1), vec![x, y])
                 }
+            }
+            SOp::Dense(bits) => {
+                let mut t = Tt(*bits);
+                for v in 0..crate::tt::NV {
+                    if !self.labels.contains(&v) {
+                        t = t.cofactor(v, false);
+                    }
+                }
+                (crate::semi::sdd_from_tt(b, t, crate::tt::NV), t, vec![])
             }
             SOp::Rebuild(a, keys) => {
                 let a = self.at(*a);
